@@ -514,3 +514,5 @@ def run(ctx):
     ctx.borrow(c08.r3, {'C08.R3': 'C12.R6'},
                'the identification of a telegram depends only on its bytes and the loaded definitions: the probe bounds '
                'm_maxIdLength / m_maxBroadcastIdLength must not depend on the order in which definitions were added')
+    import rules.C09 as _c09
+    _c09.file_state_rule(ctx, 'C12.R7')
